@@ -231,8 +231,11 @@ Section SolveProofs.
   Proof.
     intros d Hfit Hok. unfold run_model, spec_run. fold d.
     rewrite solve_partial by assumption. unfold frame_ok in Hok. apply andb_prop in Hok as [Hn H1].
-    destruct (rnd (T / d) =? 0) eqn:E0; [lia|]. rewrite negb_true_iff in H1. rewrite H1.
-    unfold spec_rows. now rewrite frame_of_maps.
+    destruct (rnd (T / d) =? 0) eqn:E0; [lia|].
+    assert (E1 : negb fixed_D35 && (rnd (T / d) =? 1) && (2 <=? length cols) = false).
+    { revert H1. generalize fixed_D35. intros [] H1; cbn [negb andb orb] in *; [reflexivity|].
+      rewrite negb_true_iff in H1. exact H1. }
+    rewrite E1. unfold spec_rows. now rewrite frame_of_maps.
   Qed.
 
   (* the loud classes of run() *)
@@ -244,11 +247,11 @@ Section SolveProofs.
 
   Theorem run_single_row_shape_error s T dt dts cutoff cols y0 c0 :
     let d := match dts with Some d => d | None => dt end in
-    rows_fit T dt d = true -> rnd (T / d) = 1 -> 2 <= length cols ->
+    fixed_D35 = false -> rows_fit T dt d = true -> rnd (T / d) = 1 -> 2 <= length cols ->
     run_model f s T dt dts cutoff cols y0 c0 = ErrShape.
   Proof.
-    intros d Hfit Hn Hc. unfold run_model. fold d. apply rows_fit_true in Hfit as [H1 H2].
-    rewrite solve_rows by assumption. rewrite Hn. cbn [Nat.eqb andb].
+    intros d Hfix Hfit Hn Hc. unfold run_model. fold d. apply rows_fit_true in Hfit as [H1 H2].
+    rewrite solve_rows by assumption. rewrite Hn, Hfix. cbn [Nat.eqb andb negb].
     destruct (2 <=? length cols) eqn:E; [reflexivity|lia].
   Qed.
 
@@ -374,10 +377,11 @@ Lemma heun_before_D36_differs :
   row_eqb (fst (heun_step_before_D36 (lin_f wit_rhs) (mkq 1 4) 0 0 [mkq 1 1])) [mkq 121 128] = true.
 Proof. split; vm_compute; reflexivity. Qed.
 
-(* one stored sample, two requested columns: ValueError from the DataFrame constructor *)
+(* one stored sample, two requested columns: ValueError from the DataFrame constructor (the single row once repaired) *)
 Lemma refuted_single_row :
-  run_model (lin_f wit_rhs2) Euler (mkq 1 8) (mkq 1 8) None (mkq 0 1) [0; 1] [mkq 1 1; mkq 2 1] 0 = ErrShape /\
-  frame_ok (mkq 1 8) (mkq 1 8) 2 = false.
+  outcome_eqb (run_model (lin_f wit_rhs2) Euler (mkq 1 8) (mkq 1 8) None (mkq 0 1) [0; 1] [mkq 1 1; mkq 2 1] 0)
+              (if fixed_D35 then Rows [[mkq 0 1; mkq 1 1; mkq 2 1]] else ErrShape) = true /\
+  frame_ok (mkq 1 8) (mkq 1 8) 2 = fixed_D35.
 Proof. split; vm_compute; reflexivity. Qed.
 
 (* what fix D05 changed: T = 1, dts = 3/8 (dt = 1/8): rows are the states at 0, 3/8, 3/4; linspace said 0, 1/3, 2/3 *)
@@ -448,3 +452,97 @@ Qed.
 Theorem round_half_even_int z : round_half_even (ZtoQc z) = z.
 Proof. apply round_half_even_nearest; toQ; lra. Qed.
 End Rounding.
+
+(* ------------------------------------------------------------------------------------------------ *)
+(* dts = m*dt (the property's quantifier): every allocated row is written; the outcome is Rows or IndexError *)
+Section NeverShort.
+Local Open Scope Qc_scope.
+Ltac toQ' := unfold Qcle, Qclt in *; rewrite ?thisP, ?thisM, ?thisZ, ?thisH in *; change (inject_Z 1) with 1%Q in *.
+
+Lemma thisMul x y : (this (x * y) == this x * this y)%Q.
+Proof. unfold Qcmult, Q2Qc. cbn [this]. apply Qred_correct. Qed.
+
+Lemma NtoQc_nonzero m : (1 <= m)%nat -> NtoQc m <> 0.
+Proof.
+  intros Hm H. unfold NtoQc, ZtoQc in H. apply (proj1 (Q2Qc_eq_iff _ 0%Q)) in H. unfold Qeq in H. cbn in H. lia.
+Qed.
+
+Lemma round_nonneg x : 0 <= x -> (0 <= round_half_even x)%Z.
+Proof.
+  intros Hx. destruct (round_half_even_close x) as [_ H2]. toQ'.
+  assert (H : (-1 < round_half_even x)%Z). { rewrite Zlt_Qlt. change (this (Q2Qc 0)) with 0%Q in Hx. change (inject_Z (-1)) with (-1 # 1)%Q. lra. }
+  lia.
+Qed.
+
+Lemma cdiv_mul_ge n m : (1 <= m)%nat -> (n <= cdiv n m * m)%nat.
+Proof.
+  intros Hm. rewrite cdiv_spec by lia.
+  pose proof (Nat.div_mod n m ltac:(lia)) as Hdm. pose proof (Nat.mod_upper_bound n m ltac:(lia)) as Hub.
+  destruct (n mod m =? 0)%nat eqn:E; nia.
+Qed.
+
+(* the number of allocated rows never exceeds the number of stores when the sampling step is m steps *)
+Theorem round_div_le_cdiv x m : 0 <= x -> (1 <= m)%nat -> (rnd (x / NtoQc m) <= cdiv (rnd x) m)%nat.
+Proof.
+  intros Hx Hm. destruct (Nat.eq_dec m 1) as [->|Hm1].
+  - assert (Hq : x / NtoQc 1 = x) by (change (NtoQc 1) with 1; field; discriminate).
+    rewrite Hq. unfold cdiv. rewrite Nat.div_1_r. lia.
+  - unfold rnd. set (w := x / NtoQc m). set (r := round_half_even w). set (n := round_half_even x).
+    pose proof (round_nonneg x Hx) as Hn0. fold n in Hn0.
+    pose proof (cdiv_mul_ge (Z.to_nat n) m Hm) as Hk. set (k := cdiv (Z.to_nat n) m) in *.
+    destruct (Z_le_gt_dec r (Z.of_nat k)) as [Hle|Hgt]; [lia|]. exfalso.
+    assert (Hxw : x = w * NtoQc m) by (unfold w; field; now apply NtoQc_nonzero).
+    destruct (round_half_even_close w) as [Hw1 _]. fold r in Hw1.
+    destruct (round_half_even_close x) as [_ Hx2]. fold n in Hx2.
+    apply (f_equal this) in Hxw. 
+    assert (Hxw' : (this x == this w * inject_Z (Z.of_nat m))%Q) by (rewrite Hxw, thisMul; unfold NtoQc; rewrite thisZ; reflexivity).
+    toQ'.
+    assert (Hr : (inject_Z (Z.of_nat k) + 1 <= inject_Z r)%Q).
+    { change 1%Q with (inject_Z 1). rewrite <- inject_Z_plus. rewrite <- Zle_Qle. lia. }
+    assert (Hnk : (inject_Z n <= inject_Z (Z.of_nat k) * inject_Z (Z.of_nat m))%Q).
+    { rewrite <- inject_Z_mult. rewrite <- Zle_Qle. lia. }
+    assert (Hm2 : (2 <= inject_Z (Z.of_nat m))%Q).
+    { change 2%Q with (inject_Z 2). rewrite <- Zle_Qle. lia. }
+    assert (Hmul : ((inject_Z (Z.of_nat k) + (1 # 2)) * inject_Z (Z.of_nat m) <= this w * inject_Z (Z.of_nat m))%Q).
+    { apply Qmult_le_compat_r; lra. }
+    set (mq := inject_Z (Z.of_nat m)) in *. set (kq := inject_Z (Z.of_nat k)) in *.
+    assert (Hexp : ((kq + (1 # 2)) * mq == kq * mq + (1 # 2) * mq)%Q) by ring.
+    rewrite Hexp in Hmul. set (P := (kq * mq)%Q) in *. lra.
+Qed.
+Lemma thisInv x : (this (/ x) == / this x)%Q.
+Proof. unfold Qcinv, Q2Qc. cbn [this]. apply Qred_correct. Qed.
+
+Lemma Qcdiv_nonneg a b : 0 <= a -> 0 < b -> 0 <= a / b.
+Proof.
+  intros Ha Hb. unfold Qcdiv. unfold Qcle, Qclt in *. rewrite thisMul, thisInv.
+  change (this (Q2Qc 0)) with 0%Q in *. apply Qle_shift_div_l; [exact Hb|]. lra.
+Qed.
+
+Theorem rows_never_short T dt dts : sampling_multiple dt dts = true -> 0 <= T -> 0 < dt ->
+  (rnd (T / dts) <= cdiv (rnd (T / dt)) (rnd (dts / dt)))%nat.
+Proof.
+  intros Hm HT Hdt. unfold sampling_multiple in Hm. apply andb_prop in Hm as [Hm1 Hm2].
+  set (m := rnd (dts / dt)) in *. apply Nat.leb_le in Hm1.
+  assert (Hd : NtoQc m * dt = dts) by (apply Qc_is_canon; now apply Qeq_bool_iff).
+  assert (Hdt0 : dt <> 0) by (intros ->; now apply (Qclt_not_eq _ _ Hdt)).
+  assert (Hq : T / dts = T / dt / NtoQc m) by (rewrite <- Hd; field; split; [exact Hdt0|now apply NtoQc_nonzero]).
+  rewrite Hq. apply round_div_le_cdiv; [now apply Qcdiv_nonneg|exact Hm1].
+Qed.
+
+(* under the property's quantifier (dts = m*dt, m >= 1) the solvers either return the iterates or raise IndexError *)
+Theorem solve_rows_or_index_error {C} (f : C -> nat -> row -> row * C) s T dt dts y0 c0 t0 :
+  sampling_multiple dt dts = true -> 0 <= T -> 0 < dt ->
+  (rows_fit T dt dts = true /\ solve f s T dt dts y0 c0 t0 = Rows (spec_rows f s T dt dts y0 c0 t0)) \/
+  (rows_fit T dt dts = false /\ solve f s T dt dts y0 c0 t0 = ErrIndex).
+Proof.
+  intros Hm HT Hdt. pose proof (rows_never_short T dt dts Hm HT Hdt) as Hle.
+  unfold sampling_multiple in Hm. apply andb_prop in Hm as [Hm1 _]. apply Nat.leb_le in Hm1.
+  destruct (Nat.eq_dec (cdiv (rnd (T / dt)) (rnd (dts / dt))) (rnd (T / dts))) as [E|E].
+  - left. assert (Hfit : rows_fit T dt dts = true).
+    { unfold rows_fit. apply andb_true_intro. split; [now apply Nat.leb_le|now apply Nat.eqb_eq]. }
+    split; [exact Hfit|now apply solve_partial].
+  - right. split.
+    + unfold rows_fit. apply andb_false_intro2. now apply Nat.eqb_neq.
+    + apply solve_index_error; [exact Hm1|lia].
+Qed.
+End NeverShort.
